@@ -821,11 +821,20 @@ def multiKindOut (k : Kind) (dtypeOut : String) : Kind :=
   | .packed, none => .plain .bool
   | k, none => k
 
+/-- the kind of the EMPTY result of `_apply_operation` (empty combined coverage): the requested
+    output type if there is one, else the first map's kind -/
+def multiKindE (k : Kind) (dtypeOut : String) : Kind :=
+  match parseDTCode dtypeOut with
+  | some d => .plain d
+  | none => k
+
 theorem WFApi.apiMultiOp_ok {row : OpRow} {maps : List MapObj} {m' : MapObj}
     (h : apiMultiOp row maps = .ok m') :
     ∃ first rest, maps = first :: rest ∧ m'.covord = first.covord ∧ m'.spord = first.spord ∧
       m'.sent = first.sent ∧ m'.cache = none ∧
-      ((m'.kind = first.kind ∧ m'.st = makeEmpty first.c first.vc [] ∧ m'.view = first.view) ∨
+      ((m'.kind = multiKindE first.kind row.dtypeOut ∧
+        m'.st = makeEmpty first.c ⟨m'.kind.blank first.sent, m'.kind.valid first.sent⟩ [] ∧
+        m'.view = first.view) ∨
        (m'.kind = multiKindOut first.kind row.dtypeOut ∧ m'.view = none ∧
         ∃ (ms : List (State Val)) (f : Val → Val → Val) (filler : Val),
           multiOp first.c ⟨m'.kind.blank first.sent, m'.kind.valid first.sent⟩ ms f filler
@@ -848,8 +857,9 @@ theorem WF.apiMultiOp' {row : OpRow} {maps : List MapObj} {m' : MapObj}
   refine ⟨by rw [h1, h2]; exact hf, ?_⟩
   have hc : m'.c = first.c := by unfold MapObj.c; rw [h1, h2]
   rw [hc]
-  rcases hcase with ⟨hk, hst, _⟩ | ⟨_, _, ms, f, filler, hm⟩
-  · have hvc : m'.vc = first.vc := by unfold MapObj.vc; rw [hk, h3]
+  rcases hcase with ⟨_, hst, _⟩ | ⟨_, _, ms, f, filler, hm⟩
+  · have hvc : m'.vc = ⟨m'.kind.blank first.sent, m'.kind.valid first.sent⟩ := by
+      unfold MapObj.vc; rw [h3]
     rw [hvc, hst]
     exact inv_makeEmpty' _ _ [] List.nodup_nil (by simp)
   · have hvc : m'.vc = ⟨m'.kind.blank first.sent, m'.kind.valid first.sent⟩ := by
